@@ -8,7 +8,8 @@ classes), reads each `__set__` / `_validate` / `_validate_static` from the worki
 by resolving them as Python does.  Each `raise` statement becomes `PRaise <id of its template in
 Gen/Templates.v>`; each guard expression is translated operator by operator (isinstance, comparison,
 `in` on a display / on a run-time container, len, float(), %, `is`, truthiness, the compiled-pattern
-match).  `getattr(instance, "_skip_validation" | "_trust_supplied_values", False)` is the constant False of
+match).  `try: <guards> except X: <... raise>` becomes `PCatch X <handler> <guards and what follows>`.
+`getattr(instance, "_skip_validation" | "_trust_supplied_values", False)` is the constant False of
 an instance under ordinary construction and is folded.
 
 Fails closed: a statement or expression outside the fragment becomes `PUnknown`, which no analysis accepts
